@@ -569,7 +569,12 @@ def run_history(ctx, case, with_sample: bool = True) -> None:
         """Compare the directory with the model. Returns (None, db) or ((sig, what), None)."""
         status, db = parse_file()
         if db is None:
-            return (f'file/{status}', f'the key file is {status} (starts with {read_bytes(path)[:40]!r})'), None
+            words = {
+                'unparseable': 'is not parseable JSON',
+                'not_object': 'no longer holds a JSON object of namespaces',
+                'not_object_of_objects': 'holds a namespace or a peer entry that is not a JSON object',
+            }[status]
+            return (f'file/{status}', f'the key file {words} (it starts with {read_bytes(path)[:40]!r})'), None
         # non-empty namespaces of model and file must coincide; every namespace reads as the model says
         names = set(expect) | set(db) | {n for n in namespaces if n is not None}
         for ns in sorted(names):
@@ -843,7 +848,7 @@ def keys_strategy():
     return st.fixed_dictionaries({}, optional=optional)
 
 
-def history_strategy(max_ops: int, profile: str):
+def history_strategy(min_ops: int, max_ops: int, profile: str):
     h = st.integers(0, 2)
     p = st.integers(0, 3)
     upd = st.tuples(st.just('update'), h, p, keys_strategy())
@@ -851,6 +856,7 @@ def history_strategy(max_ops: int, profile: str):
         upd,
         upd,
         upd,
+        st.tuples(st.just('delete'), h, p),
         st.tuples(st.just('delete'), h, p),
         st.tuples(st.just('delete_all'), h),
         st.tuples(st.just('get'), h, p),
@@ -868,7 +874,7 @@ def history_strategy(max_ops: int, profile: str):
                 'initial': initial,
                 'cuts': st.lists(st.integers(0, 1000), min_size=1, max_size=4),
                 'crash': st.just('all'),
-                'ops': st.lists(op, min_size=3, max_size=max_ops),
+                'ops': st.lists(op, min_size=min_ops, max_size=max_ops),
             }
         )
 
@@ -946,12 +952,12 @@ def run(ctx) -> None:
         done += 1
     ctx.extra['sum_roundtrip_product_cases'] = done
     ctx.extra['roundtrip_product_exhaustive'] = not ctx.quick
-    max_ops = ctx.pick(12, 30)
-    for profile, quick, thorough in (('multi', 60, 2400), ('adoption', 30, 1200), ('general', 60, 2400)):
+    min_ops, max_ops = ctx.pick((3, 12), (6, 30))
+    for profile, quick, thorough in (('multi', 50, 2400), ('adoption', 25, 1200), ('general', 50, 2400)):
         ctx.hyp(
             profile,
             lambda c: run_history(ctx, c),
-            history_strategy(max_ops, profile),
+            history_strategy(min_ops, max_ops, profile),
             max_examples=ctx.n(quick, thorough),
         )
     if ctx.labels.get('case_failed', 0):
